@@ -170,6 +170,20 @@ def run(ck: Check):
             ck.disagree("freezing thresholds beyond the 32-bit integer range moves them (frozen thresholds not round(trained), not ordered, "
                         "or the frozen code is not x > threshold)", {"init": init, "fresh": fresh, "frozen": fr},
                         signature={"what": "freeze-round", "range": "beyond-int32"})
+    # integer-valued thresholds between 2^23 and 2^24 (the last binade in which binary32 still holds every integer, none of the halves):
+    # rounding is the identity there, whereas "floor(t + 0.5)" rounds t + 0.5 itself to the even neighbour and moves every odd threshold
+    # up by one - onto the next threshold; likewise the largest float below k + 1/2 must round down to k
+    for init in ([8388607.0, 8388609.0, 8388610.0], [8388611.0, 12582913.0, 16777213.0, 16777215.0], [0.49999997, 2.5, 7.4999995]):
+        ck.case({"init": init, "kind": "last-integer-binade"}, nontrivial=True, kind="freeze-large")
+        lay_b = T(init)
+        fresh = lay_b.get_thresholds().double().tolist()
+        lay_b.freeze_thresholds()
+        fr = lay_b.get_thresholds().double().tolist()
+        want_fr = [float(np.round(v)) for v in fresh]                       # round half to even of the (float32) trained threshold
+        if fr != want_fr or any(abs(a - b) > 0.5 for a, b in zip(fr, fresh)):
+            ck.disagree("frozen thresholds are not the rounded trained ones (an integer-valued threshold moved / a threshold just below a half went up)",
+                        {"init": init, "trained": fresh, "frozen": fr, "expected": want_fr},
+                        signature={"what": "freeze-round", "range": "last-integer-binade"})
     # a layer that becomes frozen by LOADING a frozen state: an optimizer built before the load (momentum / weight decay, zero_grad that keeps
     # the gradient tensors) must not move the thresholds afterwards - the sibling of the freeze-then-step protocol
     for opt_name in ("adam", "sgd-momentum-decay"):
